@@ -1,6 +1,6 @@
 """C14 validator-set changes: AdminOp.tla exhaustively model-checked (signature tally over ALL short signature
 lists; request sequences with sender/nonce binding, replay, direct precompile calls, read-only queries, two
-replicas); every edge of the dumped state graphs plus simulated behaviours of the larger configurations are
+replicas); the transitions of the dumped state graphs (edge cover) plus weighted random walks on them are
 concretised with real keys/signatures/transactions and replayed through the real EVM application, admin
 precompile, AdminOp plugin and State.ExecBlock/EndBlock on two real replicas (driver cmd/adminop)."""
 import copy
@@ -20,8 +20,6 @@ CFGS = {
     'g2': ('MC_AdminOp_g2.cfg', [1, 1, 2, 0]),
     'm2': ('MC_AdminOp_m2.cfg', [1, 1, 2, 0]),
     'w2': ('MC_AdminOp_w2.cfg', [3, 1, 1, 1]),
-    's':  ('Sim_AdminOp_s.cfg',  [1, 1, 2, 0]),
-    'sw': ('Sim_AdminOp_sw.cfg', [3, 1, 1, 1]),
     't111x': ('MC_AdminOp_t111x.cfg', [1, 1, 1, -1]),
     't1120': ('MC_AdminOp_t1120.cfg', [1, 1, 2, 0]),
     't3111': ('MC_AdminOp_t3111.cfg', [3, 1, 1, 1]),
@@ -81,43 +79,27 @@ def drain_path(g, path, max_extra=8):
     return path + ext
 
 
-def from_last(tr):
-    """Simulated behaviours (Sim_AdminOp): TLC cannot label the steps; the action and its arguments are read from
-    the output variable `last`; scheduler steps (only `kind` changes) are dropped."""
-    steps = []
-    prev = dict(tr['init'])
-    prev.pop('kind', None)
-    for s in tr['steps']:
-        cur = dict(s['post'])
-        cur.pop('kind', None)
-        if cur == prev:
-            continue
-        prev = cur
-        l = cur['last']
-        op = l['op']
-        args = {'Tx': lambda: [l['b'], l['sl'], l['route'], l['snd'], l['res']],
-                'Resend': lambda: [l['snd']],
-                'CloseBlock': lambda: [],
-                'Exec': lambda: [l['r'], l['out']],
-                'Query': lambda: [l['r'], l['b'], l['sl'], l['snd'], l['res']],
-                'Check': lambda: [l['sl'], l['r']]}[op]()
-        post = dict(cur)
-        post.pop('last')
-        steps.append({'a': op, 'args': args, 'post': post})
-    init = dict(tr['init'])
-    init.pop('kind', None)
-    init.pop('last', None)
-    return {'init': init, 'steps': steps}
+def random_walk(g, rng, max_len=18):
+    """A behaviour chosen step by step on the state graph, accepted changes, closing and executing preferred."""
+    cur = rng.choice(g.init)
+    path = []
+    while len(path) < max_len:
+        out = [k for k in g.out.get(cur, [])]
+        if not out:
+            break
 
-
-def cut_to_drained(tr):
-    """Longest prefix of a simulated behaviour after which both replicas executed all closed blocks."""
-    last = -1
-    for i, s in enumerate(tr['steps']):
-        if s['a'] != 'Check' and drained(s['post']):
-            last = i
-    tr['steps'] = tr['steps'][:last + 1]
-    return tr
+        def weight(k):
+            _, a, args, dst = g.edges[k]
+            if a == 'Tx':
+                res = args[4]
+                return 6.0 if res == 'ok' else 2.0 if res in ('rejNonce', 'rejFrom', 'rejRoute', 'noop') else 0.4
+            if a == 'Exec':
+                return 0.2 if dst == cur else 40.0
+            return {'CloseBlock': 30.0, 'Query': 0.3, 'Resend': 4.0}.get(a, 1.0)
+        k = rng.choices(out, weights=[weight(k) for k in out])[0]
+        path.append(k)
+        cur = g.edges[k][3]
+    return path
 
 
 def run_chunks(ctx, traces, nproc, per=400):
@@ -177,8 +159,8 @@ def run(ctx, replay=None):
     exhaustive = ['q', 'g2', 't1120'] if quick else ['q', 'q3', 'g2', 't111x', 't1120', 't3111', 't1111', 'm2', 'w2']
     graph_cfgs = {'q': 14, 'g2': 14, 't1120': 400} if quick else \
                  {'q': 14, 'q3': 16, 'g2': 14, 't111x': 400, 't1120': 400, 't3111': 400, 't1111': 400}
-    max_paths = {'q': 1600, 'g2': 1000} if quick else {'q3': 5000}
-    sim_cfgs = [] if quick else [('s', 60, 40), ('sw', 60, 40)]
+    max_paths = {'q': 1500, 'g2': 900} if quick else {'q3': 3000}
+    walks = {'q': 300, 'g2': 300} if quick else {'q3': 2500, 'g2': 800}
     old_cfgs = ['oldDup'] if quick else list(OLD)
     all_traces = []
     for name in exhaustive:
@@ -204,6 +186,18 @@ def run(ctx, replay=None):
                 t['cfg'] = tcfg(name)
                 t['id'] = 'graph-%s-%d' % (name, k)
                 all_traces.append(t)
+            seen_walks = set()
+            for k in range(walks.get(name, 0)):
+                p = tuple(drain_path(g, random_walk(g, ctx.rng)))
+                if not p or p in seen_walks or not drained(g.states[g.edges[p[-1]][3]]):
+                    continue
+                seen_walks.add(p)
+                t = tlc.path_to_steps(g, list(p))
+                t['cfg'] = tcfg(name)
+                t['id'] = 'walk-%s-%d-%d' % (name, ctx.seed, k)
+                all_traces.append(t)
+            if walks.get(name):
+                ctx.log('walks %s: %d distinct' % (name, len(seen_walks)))
         tlc.cleanup(r)
     # the specification must be able to tell the old behaviours from the fixed ones
     sens = {}
@@ -213,21 +207,6 @@ def run(ctx, replay=None):
         if not r.violation:
             ctx.inconclusive.append('spec sensitivity: configuration %s (pre-fix behaviour) violates nothing' % name)
     ctx.cov['spec_refutes_prefix_behaviour'] = sens
-    for name, num, depth in sim_cfgs:
-        cfgfile = CFGS[name][0]
-        r, traces = tlc.simulate_traces(SPEC, 'Sim_AdminOp.tla', cfgfile, num, depth, ctx.seed)
-        ctx.add_tlc('AdminOp/sim-' + name, r, exhaustive=False)
-        kept = 0
-        for k, t in enumerate(traces):
-            t = cut_to_drained(from_last(t))
-            if not t['steps']:
-                continue
-            t['cfg'] = tcfg(name)
-            t['id'] = 'sim-%s-%d-%d' % (name, ctx.seed, k)
-            all_traces.append(t)
-            kept += 1
-        ctx.log('simulated %s: %d behaviours (%d kept)' % (name, len(traces), kept))
-
     # binding self-test: corrupted expectations must be rejected by the driver
     probes = []
     for t in all_traces:
@@ -269,13 +248,13 @@ def run(ctx, replay=None):
     ctx.cov['distinct_nontrivial'] = nt
     ctx.cov['rule'] = ('behaviours = edge-cover paths of the dumped state graphs (request machine: every transition, drained so '
                        'that both replicas execute every block; tally configs: every signature list up to length 3/4) + '
-                       'tlc -simulate behaviours of the larger configurations; non-trivial = contains an accepted change, a '
+                       'distinct weighted random walks on the same graphs (accepted changes preferred, drained); non-trivial = contains an accepted change, a '
                        'nonce/sender/route rejection, a query, a re-sent transaction, a repeated or invalid signature entry, '
                        'or a failing EndBlock')
     ctx.cov['impl_checks'] = rep['checks']
     ctx.cov['driver_counters'] = rep.get('counters', {})
     ctx.cov['exhaustive'] = True
-    for t in all_traces[:1] + [t for t in all_traces if t['id'].startswith('sim-')][:1]:
+    for t in all_traces[:1] + [t for t in all_traces if t['id'].startswith('walk-')][:1]:
         ctx.sample({'id': t['id'], 'cfg': t['cfg'], 'actions': ['%s%s' % (s['a'], s['args']) for s in t['steps'][:6]]})
     ctx.assumptions += [
         'ed25519 / secp256k1 signatures are unforgeable (signature entries are symbolic in the spec: genuine over the request, '
